@@ -9,7 +9,8 @@ RetryCounts == (0..70) \cup {-1}
 \* list-call patterns for the poll loop (F = the list call fails, S = it succeeds with an empty list) and the ways
 \* a list call can fail: any of them must make the agent wait before it asks again
 ListPatterns == UNION {[1..n -> {"F", "S"}] : n \in 1..5}
-FailKinds == {"500-body", "503-empty", "502-empty", "401-empty", "204-empty", "200-garbage", "200-truncated", "reset"}
+FailKinds == {"500-body", "503-empty", "502-empty", "401-empty", "204-empty", "200-garbage", "200-truncated", "reset",
+              "503-retry-after-0", "429-retry-after-past"}      \* (failures that come with a Retry-After header)
 VARIABLE x
 GInit == x = 0
 GNext == x' = x
